@@ -35,7 +35,12 @@ ASSUME = ["the genomic breeding value of an individual is intercept + sum_j geno
           "a closed history = mating among / selecting from / merging members of the current population only; the harness "
           "performs selection itself (index lists), the library performs mating, subsetting, merging, genotyping, limits",
           "float comparisons use |a-b| <= 1e-9*(ploidy*max_trait sum|u| + |intercept|) + 1e-12 on the safe side only",
-          "tightness of the limits is not demanded (diagnostic counter only)"]
+          "tightness of the limits is not demanded (diagnostic counter only)",
+          "a step after which an allele with integer count 0 is present again is reported under C10.lost with the operation as "
+          "site; the history relations (bracket w.r.t. ancestors, monotone) restart at that generation instead of reporting the "
+          "same event again",
+          "unmodelled: DenseLinearGenomicModel (same limit code, abstract in this tree), DenseAdditiveDominanceLinearGenomicModel "
+          "(not additive), the library's selection protocols (selection is an index list chosen by the harness)"]
 TIMEOUT = {"quick": 900, "thorough": 3 * 3600}
 
 PROTOS = [("SelfCross", 1), ("TwoWayCross", 2), ("TwoWayDHCross", 2), ("ThreeWayCross", 3), ("ThreeWayDHCross", 3),
@@ -351,8 +356,8 @@ def case_history(ctx, c, family="hist"):
                     "sizes": [x.n for x in mon.gens]})
 
 
-FAMILIES = {"hist": (lambda ctx, c: case_history(ctx, c, "hist"), 1800, 16 * 12000),
-            "chain": (lambda ctx, c: case_history(ctx, c, "chain"), 700, 16 * 4000)}
+FAMILIES = {"hist": (lambda ctx, c: case_history(ctx, c, "hist"), 1800, 16 * 8000),
+            "chain": (lambda ctx, c: case_history(ctx, c, "chain"), 700, 16 * 2500)}
 
 
 def run_shard(ctx):
